@@ -4692,6 +4692,20 @@ impl Command {
                     sc.get_name(),
                 );
                 sc.args.push(a.clone());
+
+                // The group a global argument names is created implicitly in the subcommand;
+                // keep it from turning exclusive when it was declared with `multiple(true)`
+                for group_id in &a.groups {
+                    let multiple = self
+                        .groups
+                        .iter()
+                        .find(|g| g.id == *group_id)
+                        .map(|g| g.multiple)
+                        .unwrap_or(false);
+                    if multiple && !sc.groups.iter().any(|g| g.id == *group_id) {
+                        sc.groups.push(ArgGroup::new(group_id.clone()).multiple(true));
+                    }
+                }
             }
         }
     }
